@@ -79,8 +79,26 @@ def cached(parts, fn, use_cache=True):
     return v
 
 
+XSAMPLES = {}     # entry -> [(args, out)] : a few records per entry point, re-evaluated INSIDE Coq by the checks (vm_compute)
+
+
+def _xsample(calls, outs):
+    for (name, args), out in zip(calls, outs):
+        if len(args) + len(out) > 2500 or max([abs(x) for x in args + out] or [0]) >= 2 ** 62:
+            continue
+        l = XSAMPLES.setdefault(name, [])
+        if len(l) < 2:
+            l.append((list(args), list(out)))
+
+
 def run_model(calls, shards=8):
     """calls: list of (entry_name, [ints]) -> list of [ints] (model outputs), order preserved."""
+    out = _run_model(calls, shards)
+    _xsample(calls, out)
+    return out
+
+
+def _run_model(calls, shards=8):
     if not calls:
         return []
     shards = max(1, min(shards, len(calls) // 200 + 1))
@@ -131,6 +149,7 @@ class Result:
         self.traces = 0
         self.notes = []
         self.not_modelled = []
+        self.xsamples = {}
 
     def count(self, key, n=1):
         self.dist[key] = self.dist.get(key, 0) + n
@@ -152,6 +171,9 @@ class Result:
         self.traces += other.traces
         self.notes += other.notes
         self.not_modelled += other.not_modelled
+        for k, v in getattr(other, "xsamples", {}).items():
+            l = self.xsamples.setdefault(k, [])
+            l += v[:max(0, 2 - len(l))]
         return self
 
 
